@@ -220,22 +220,101 @@ class _:
     pure = staticmethod(lambda o, s: s.scaffold_namer.autosome_prefix)
 
 
-@contract(f"{M}.scaffolds_fused_by_name", status="BOUNDED", properties=())
+FKEY = TTuple([TOpt(STR), TOpt(STR), STR])
+FUSED = TDict(FKEY, TRef("Scaffold"))
+FK = FKEY.sort()
+
+
+def _fuse_key(sc):
+    """C09 (repaired in ad1496b): pieces are fused only when tag, haplotype and name all agree"""
+    return FK.mk(sc.tag.z, sc.haplotype.z, sc.name)
+
+
+def _fusion_post(v, b, e, o):
+    """one overlap result / left-over scaffold: skipped when it has no rows; otherwise appended to the fused scaffold of its
+    key (created with the piece's name, tag, haplotype and rank when the key is new), behind the join gap iff that
+    scaffold already had rows (C07: 'every join carries a gap'); every other fused scaffold is left alone"""
+    from pyvc.spec import ObjView
+
+    sc = b.scffld
+    d0, d1 = b.hap_name_scaffold, v.hap_name_scaffold
+    key = _fuse_key(sc)
+    empty = sc.rows.len == 0
+    tgt1 = d1.get(key)
+    old_rows = ObjView(b.state, d0.raw(key), "Scaffold").rows
+    had = d0.has(key)
+    n_old = z3.If(had, old_rows.len, 0)
+    gap = o.self.default_gap
+    with_gap = z3.And(z3.Not(gap.is_none), n_old > 0)
+    other = z3.Const("key!fuse", FK)
+    new_rows = tgt1.rows
+    return [
+        ("empty-piece-skipped", z3.Implies(empty, z3.ForAll([other], z3.And(d1.has(other) == d0.has(other), d1.raw(other) == d0.raw(other))))),
+        ("fused-under-its-key", z3.Implies(z3.Not(empty), z3.And(d1.has(key), z3.If(had, d1.raw(key) == d0.raw(key),
+                                           z3.And(tgt1.z >= b.alloc, tgt1.name == sc.name, tgt1.tag.z == sc.tag.z, tgt1.haplotype.z == sc.haplotype.z, tgt1.rank.z == sc.rank.z))))),
+        ("other-keys-kept", z3.Implies(z3.Not(empty), z3.ForAll([other], z3.Implies(other != key, z3.And(d1.has(other) == d0.has(other), d1.raw(other) == d0.raw(other)))))),
+        ("piece-appended-length", z3.Implies(z3.Not(empty), new_rows.len == n_old + z3.If(with_gap, 1, 0) + sc.rows.len)),
+        ("join-gap-iff-joining", z3.Implies(z3.And(z3.Not(empty), with_gap), new_rows[n_old].z == gap.val.z)),
+        ("earlier-rows-kept", z3.Implies(z3.And(z3.Not(empty), had), forall(lambda k: z3.Implies(z3.And(0 <= k, k < n_old), new_rows[k].z == old_rows[k].z)))),
+    ]
+
+
+@contract(f"{M}.scaffolds_fused_by_name", properties=("C07", "C09"))
 class _:
-    # the generator, as the list of what it yields: new scaffolds built from the overlap results (the fusion itself -
-    # key (tag, haplotype, name), join gap - is decided by the bounded tier for C07 / C09)
+    # the generator, as the list of what it yields
     as_list = True
     params = {"self": BA}
     result = TList(TRef("Scaffold"))
     result_zero_based = True
+    local_types = {"hap_name_scaffold": FUSED}
     modifies = staticmethod(lambda o: [("fresh-objs", "Scaffold", ["name", "rows", "tag", "haplotype", "rank", "original_name", "original_tags"]),
-                                       ("fresh-lists", ROW), ("fresh-lists", TRef("Scaffold")), ("alloc",), ("ralloc",)])
+                                       ("fresh-lists", ROW), ("fresh-lists", TRef("Scaffold")), ("dict-maps", FKEY, TRef("Scaffold")), ("alloc",), ("ralloc",)])
     raises = {"ValueError": lambda o: True}
+
+    @staticmethod
+    def requires(o):
+        scs = o.self.scaffolds
+        return [("pieces", forall(lambda k: z3.Implies(z3.And(0 <= k, k < scs.len), z3.And(scs[k].z >= 1, scs[k].z < o.alloc)))),
+                ("default-gap-is-a-gap", z3.Implies(z3.Not(o.self.default_gap.is_none), o.self.default_gap.val.is_gap))]
 
     @staticmethod
     def ensures(o, n, res):
         return z3.And(res.z >= o.alloc, res.z < n.alloc, res.len >= 0,
                       forall(lambda k: z3.Implies(z3.And(0 <= k, k < res.len), z3.And(res[k].z >= 1, res[k].z < n.alloc))))
+
+    # what the append statement does to the fused scaffold it is applied to (proved at the statement, used by the
+    # per-iteration postcondition)
+    stmt_post = {("if isinstance(scffld, OverlapResult):\n    build_scffld.append_scaffold(scffld.to_scaffold(), gap)\nelse:\n    build_scffld.append_scaffold(scffld, gap)", 0):
+                 lambda v, b, o: (lambda r1, r0, g: [
+                     ("same-list", r1.z == r0.z),
+                     ("length", r1.len == r0.len + z3.If(z3.And(z3.Not(g.is_none), r0.len > 0), 1, 0) + b.scffld.rows.len),
+                     ("earlier-rows", forall(lambda k: z3.Implies(z3.And(0 <= k, k < r0.len), r1[k].z == r0[k].z))),
+                     ("gap", z3.Implies(z3.And(z3.Not(g.is_none), r0.len > 0), r1[r0.len].z == g.val.z)),
+                 ])(v.build_scffld.rows, b.build_scffld.rows, o.self.default_gap)}
+
+    loops = {
+        0: LoopSpec(
+            kind="for",
+            iter_src="self.scaffolds",
+            inv=lambda v, e, o: [
+                ("objects", z3.And(v.hap_name_scaffold.z == e.hap_name_scaffold.z, v.hap_name_scaffold.z >= o.alloc, v.hap_name_scaffold.z < v.alloc, v.self.z == o.self.z,
+                                   v.gap.z == e.gap.z)),
+                ("counter", z3.And(0 <= v._it0, v._it0 <= o.self.scaffolds.len)),
+                # fused scaffolds are new objects with their own rows list: appending to one never touches a piece
+                ("fused-are-new", (lambda k: z3.ForAll([k], z3.Implies(v.hap_name_scaffold.has(k), z3.And(
+                    v.hap_name_scaffold.raw(k) >= o.alloc, v.hap_name_scaffold.raw(k) < v.alloc,
+                    v.hap_name_scaffold.get(k).rows.z >= o.alloc, v.hap_name_scaffold.get(k).rows.z < v.alloc))))(z3.Const("k!fused", FK))),
+            ],
+            iter_post=_fusion_post,
+            frame=lambda v, e: {"$fresh-only": ["LA.Row", "LHI.Row", "LLO.Row", "H.Scaffold.name", "H.Scaffold.rows", "H.Scaffold.tag", "H.Scaffold.haplotype",
+                                                "H.Scaffold.rank", "H.Scaffold.original_name", "H.Scaffold.original_tags", "H.$class"]},
+        ),
+        1: LoopSpec(kind="for", inv=lambda v, e, o: [
+            ("objects", z3.And(v.hap_name_scaffold.z == e.hap_name_scaffold.z, v._yields.z == e._yields.z, v._yields.lo == 0, v._yields.len >= 0,
+                               v._it1_seq.z == e._it1_seq.z, v._it1_seq.arr == e._it1_seq.arr, v._it1_seq.hi == e._it1_seq.hi, v._it1_seq.lo == 0)),
+            ("yielded", forall(lambda k: z3.Implies(z3.And(0 <= k, k < v._yields.len), z3.And(v._yields[k].z >= 1, v._yields[k].z < v.alloc)))),
+        ]),
+    }
 
 
 def _destination(sc):
@@ -274,8 +353,12 @@ class _:
     params = {"self": BA}
     result = ASMS
     local_types = {"assemblies": ASMS}
-    requires = staticmethod(lambda o: [("stats-object", o.self.assembly_stats.z != o.self.z)])
+    requires = staticmethod(lambda o: [("stats-object", o.self.assembly_stats.z != o.self.z),
+                                       # what scaffolds_fused_by_name needs: the pieces are objects, the join gap is a gap
+                                       ("pieces", forall(lambda k: z3.Implies(z3.And(0 <= k, k < o.self.scaffolds.len), z3.And(o.self.scaffolds[k].z >= 1, o.self.scaffolds[k].z < o.alloc)))),
+                                       ("default-gap-is-a-gap", z3.Implies(z3.Not(o.self.default_gap.is_none), o.self.default_gap.val.is_gap))])
     modifies = staticmethod(lambda o: [("fresh-objs", "Scaffold", ["name", "rows", "tag", "haplotype", "rank", "original_name", "original_tags"]),
+                                       ("dict-maps", FKEY, TRef("Scaffold")),
                                        ("fresh-objs", "Assembly", ["name", "scaffolds", "header", "curated"]), ("fresh-objs", "ChrNamer", ["chr_prefix"]),
                                        ("fresh-lists", ROW), ("fresh-lists", TRef("Scaffold")), ("fresh-lists", STR), ("fresh-lists", TRef("Assembly")),
                                        ("map", "H.Scaffold.name"), ("dict-maps", TOpt(STR), TRef("Assembly")),
